@@ -111,16 +111,12 @@ def cbmc_job(workdir, name, harness_file, entry, enforce=None, replace=(), loop_
     prefixes = tuple(own_prefixes) or tuple(p for p in (enforce, entry) if p)
     if solvers is None:
         solvers = ['cvc5', 'z3', 'z3new'] if smt else ['sat']
-    if split and small_scope:
-        # cheap falsification first: a counterexample at small capacity makes the long quantified proof attempt pointless
-        _small_scope_refute(r, workdir, name, harness_file, entry, enforce, replace, loop_contracts, extra_instr, nondet_static, defines, small_scope, prefixes)
-        if r.status == 'refuted':
-            r.cmd = ' '.join(cc) + ' (with -D' + ' -D'.join(small_scope) + ') && ' + ' '.join(gi) + ' && cbmc --trace (SAT, small-scope refutation)'
-            r.seconds = time.time() - t0
-            return r
     if split:
         r = _split_solve(r, t0, workdir, name, b, props, main_ids, canary_ids, prefixes, solvers, extra_cbmc, timeout, smt,
                          expect_canary, canary_timeout, cc, gi, split_workers)
+        if small_scope and r.status == 'undecided':
+            # fallback only: the quantified proof attempt did not finish -- look for a counterexample at small capacity (quantifier-free, SAT)
+            _small_scope_refute(r, workdir, name, harness_file, entry, enforce, replace, loop_contracts, extra_instr, nondet_static, defines, small_scope, prefixes)
         r.seconds = time.time() - t0
         return r
     procs = []
@@ -168,8 +164,8 @@ def cbmc_job(workdir, name, harness_file, entry, enforce=None, replace=(), loop_
             pending.remove(pr)
             o = p.stdout.read().decode('utf-8', 'replace')
             logs.append('--- %s (%.1fs)\n%s' % (sv, time.time() - t0, o[-6000:]))
-            if smt and 'Running SMT2' not in o:
-                continue
+            if smt and 'Running SMT2' not in o and ('Passing problem to' in o or 'VERIFICATION SUCCESSFUL' not in o):
+                continue      # an SMT job must show the SMT solver banner, unless symbolic execution alone decided every obligation (no solver engaged at all)
             res = parse_cbmc(o)
             if not res or any(b_ in o for b_ in BAD_LOG) or any(st in ('ERROR', 'UNKNOWN') for _, _, st in res) \
                     or ('VERIFICATION SUCCESSFUL' not in o and 'VERIFICATION FAILED' not in o):
@@ -381,15 +377,51 @@ def _split_solve(r, t0, workdir, name, b, props, main_ids, canary_ids, prefixes,
     return r
 
 
-def _small_scope_refute(r, workdir, name, harness_file, entry, enforce, replace, loop_contracts, extra_instr, nondet_static, defines, small_defs, prefixes):
-    """Refutation pass for an undecided function: the SAME extracted code and the SAME contracts, compiled with small container
-    capacities (e.g. -DKMAX=4) and checked with the SAT back end, which expands the constant-bounded quantifiers.  A FAILURE there is
-    a genuine counterexample of the contract (a state with at most that many handles / names); all-SUCCESS proves nothing and the
-    function stays undecided."""
+def _short_trace(t, keep=60, idents=None):
+    """state assignments of a CBMC trace to program / ghost variables (identifiers of the unit text), without the instrumentation noise"""
+    ls = []
+    for l in t.splitlines():
+        m = re.match(r'^  ([A-Za-z_]\w*)(\[[^\]]*\])?(\.\w+)*=', l)
+        if not m or (idents is not None and m.group(1) not in idents) or m.group(1) in ('set', 'ptr', 'size', 'idx', 'car'):
+            continue
+        ls.append(re.sub(r' \([01 ]+\)$', '', l)[:200])
+    return 'trace (assignments to program/ghost variables, last %d of %d):\n' % (min(keep, len(ls)), len(ls)) + '\n'.join(ls[-keep:]) + '\n'
+
+
+def _small_scope_refute(r, workdir, name, harness_file, entry, enforce, replace, loop_contracts, extra_instr, nondet_static, defines, small, prefixes):
+    """Refutation pass for an UNDECIDED function: the SAME extracted code and the SAME contracts, compiled with small container capacities
+    (small = {'KMAX': 4, ...}) after vf/finite.py has expanded every quantifier of the contract text into a finite conjunction / disjunction
+    over those capacities, checked with the SAT back end (exact for quantifier-free text, prints a trace).  A FAILED obligation is a genuine
+    counterexample of the contract (a state with at most that many handles / names / objects); all-SUCCESS proves nothing and the function
+    stays undecided."""
+    import finite, glob
+    inc = os.path.join(workdir, name + '.small_inc')
+    os.makedirs(inc, exist_ok=True)
+    files = glob.glob(os.path.join(LIB, '*.h')) + glob.glob(os.path.join(CONTRACTS, '*.h')) + glob.glob(os.path.join(workdir, '*.c')) + glob.glob(os.path.join(workdir, '*.h'))
+    caps = {}
+    for fpath in files:
+        for m in re.finditer(r'^\s*#\s*define\s+(\w+)\s+(\d+)\s*$', open(fpath, errors='replace').read(), re.M):
+            caps.setdefault(m.group(1), int(m.group(2)))
+    caps.update(small)
+    nq = 0
+    for fpath in files:
+        t = open(fpath, errors='replace').read()
+        if 'CPROVER_forall' in t or 'CPROVER_exists' in t:
+            try:
+                t, k = finite.expand(t, caps, finite.default_loopvar_bound)
+                nq += k
+            except finite.FiniteBreak:
+                pass          # left as it is; if the unit really includes it the survivor test below stops the pass
+        open(os.path.join(inc, os.path.basename(fpath)), 'w').write(t)
+    small_defs = ['%s=%d' % kv for kv in sorted(small.items())]
     a = os.path.join(workdir, name + '.small.a.gb')
     b = os.path.join(workdir, name + '.small.b.gb')
-    cc = ['goto-cc', '-I', LIB, '-I', CONTRACTS, '-I', workdir, '--function', entry] + ['-D' + d for d in list(defines) + list(small_defs)] + [harness_file, '-o', a]
-    rc, out, s_, to = run(cc, cwd=workdir, timeout=120)
+    cc = ['goto-cc', '-I', inc, '--function', entry] + ['-D' + d for d in list(defines) + small_defs] + [os.path.join(inc, os.path.basename(harness_file)), '-o', a]
+    rc, pp, s_, to = run(['gcc', '-E', '-P', '-I', inc] + ['-D' + d for d in list(defines) + small_defs] + [os.path.join(inc, os.path.basename(harness_file))], cwd=inc, timeout=120)
+    if rc != 0 or 'CPROVER_forall' in pp or 'CPROVER_exists' in pp:
+        r.log += '\n--- small-scope: a quantifier survives the finite expansion (or preprocessing failed); pass not run\n'
+        return
+    rc, out, s_, to = run(cc, cwd=inc, timeout=300)
     if rc != 0:
         r.log += '\n--- small-scope: goto-cc failed\n' + out[-1500:]
         return
@@ -401,18 +433,30 @@ def _small_scope_refute(r, workdir, name, harness_file, entry, enforce, replace,
     if nondet_static:
         gi += ['--nondet-static']
     gi += list(extra_instr) + [a, b]
-    rc, out, s_, to = run(gi, cwd=workdir, timeout=300)
+    rc, out, s_, to = run(gi, cwd=workdir, timeout=600)
     if rc != 0:
         r.log += '\n--- small-scope: goto-instrument failed\n' + out[-1500:]
         return
-    rc, o, s_, to = run(['cbmc', '--trace', b], cwd=workdir, timeout=600)
-    res = parse_cbmc(o)
-    fails = [x for x in res if x[2] == 'FAILURE' and not x[1].endswith('canary') and x[0].startswith(prefixes)]
-    r.log += '\n--- small-scope refutation pass (%s, SAT): %d obligations, %d failed\n' % (' '.join(small_defs), len(res), len(fails))
-    if fails and not to:
-        tr = o.split('Trace for ')
-        r.log += ''.join(('Trace for ' + t_)[:2500] for t_ in tr[1:3])
+    props, plog = list_properties(b, workdir)
+    key = [p_ for p_, d_ in props if p_.startswith(prefixes) and not d_.strip().endswith('canary') and re.search(r'postcondition|loop_invariant|precondition|assertion|loop_step|loop_decreases', p_)]
+    if not key:
+        r.log += '\n--- small-scope: no key obligations found\n'
+        return
+    sel = []
+    for p_ in key:
+        sel += ['--property', p_]
+    # the key obligations only (contract clauses, loop invariants, callee preconditions, assertions), stop at the first counterexample
+    rc, o, s_, to = run(['cbmc', '--stop-on-fail', '--trace'] + sel + [b], cwd=workdir, timeout=int(os.environ.get('VF_SS_TIMEOUT', '600')))
+    vm = re.search(r'Violated property:\n(.*?)\n\s*\n', o, re.S)
+    r.log += '\n--- small-scope refutation pass (%s; %d quantifiers expanded; SAT, --stop-on-fail over %d key obligations): %s\n' % (
+        ' '.join(small_defs), nq, len(key), 'timeout' if to else ('counterexample' if 'VERIFICATION FAILED' in o else 'no counterexample at this scope' if 'VERIFICATION SUCCESSFUL' in o else 'no answer'))
+    if 'VERIFICATION FAILED' in o and vm and not to:
+        desc = ' '.join(vm.group(1).split())
+        fm = re.search(r'line (\d+)', desc)
+        idents = set(re.findall(r'[A-Za-z_]\w*', ' '.join(open(os.path.join(inc, f_), errors='replace').read() for f_ in os.listdir(inc) if f_.endswith('.c') or 'spec' in f_)))
+        r.log += 'Violated obligation: ' + desc[:1200] + '\n' + _short_trace(o, idents=idents)
         r.status = 'refuted'
-        r.failed = [x[0] for x in fails]
-        r.detail = 'counterexample at small container capacity (%s): %s' % (' '.join(small_defs), ','.join(r.failed[:6]))
+        r.failed = ['%s: %s' % (prefixes[0], re.sub(r'^file \S+ ', '', desc)[:300])]
+        r.detail = 'counterexample at small container capacity (%s): %s' % (' '.join(small_defs), r.failed[0][:200])
+        r.cmd = ' '.join(cc) + ' && ' + ' '.join(gi) + ' && cbmc --stop-on-fail --trace --property <key obligations> (SAT; quantifiers expanded by vf/finite.py)'
         r.backend = (r.backend or '') + '+sat(small-scope)'
